@@ -34,7 +34,7 @@ func init() {
 			"the symbol-property table is exercised with data properties only: Object.assign / spread run no script code while they walk the table, so goja walking it with a live iterator where the specification takes a key snapshot first is not observable and not asserted (DESIGN 5.3)",
 			"the order of string and index keys of the object carrying the symbol table is not asserted (an ordinary-object matter); asserted are their number, that they precede every symbol in Reflect.ownKeys and that for-in / Object.keys / entries / getOwnPropertyNames / JSON.stringify never list a symbol",
 		},
-		FaultKinds: []string{"callback-throw", "generator-throw", "goforof-throw"},
+		FaultKinds: []string{"callback-throw", "generator-throw", "goforof-throw", "iterable-throw"},
 	})
 }
 
@@ -103,16 +103,16 @@ function op_forEach(c, tok, isSet) {
   }, T);
   return R(c, r === undefined ? "ok" : "BADRET");
 }
-function* GEN(c, slot, gkind, rkind) {
-  var m = COLS[c];
+function* GEN(m, slot, gkind, rkind) {
   var it = gkind === 0 ? m : gkind === 1 ? m.keys() : gkind === 2 ? m.values() : m.entries();
   for (const e of it) { var s = ren(rkind, e); Y(GT[slot], s, true); yield s; }
 }
-function* GEND(c, slot) {
-  for (const [k, v] of COLS[c]) { var s = rk(k) + "=" + rv(v); Y(GT[slot], s, true); yield s; }
+function* GEND(m, slot) {
+  for (const [k, v] of m) { var s = rk(k) + "=" + rv(v); Y(GT[slot], s, true); yield s; }
 }
 function op_gopen(c, slot, gkind, rkind) {
-  ITERS[slot] = gkind === 4 ? GEND(c, slot) : GEN(c, slot, gkind, rkind);
+  // the collection is bound now (not at the first resumption): the slot may hold a re-created collection by then
+  ITERS[slot] = gkind === 4 ? GEND(COLS[c], slot) : GEN(COLS[c], slot, gkind, rkind);
   return R(c, "ok");
 }
 function op_gnext(c, slot, tok) {
@@ -129,6 +129,54 @@ function op_spread(c, which, rkind) {
   var m = COLS[c];
   var a = which === 0 ? [...m] : which === 1 ? [...m.keys()] : which === 2 ? [...m.values()] : Array.from(m.entries());
   return R(c, rlist(rkind, a));
+}
+// ---- population / re-creation of a collection through its constructor ----
+var XCNT = 0;
+class XSet extends Set { add(v) { XCNT++; return super.add(v); } }
+class XMap extends Map { set(k, v) { XCNT++; return super.set(k, v); } }
+function getCol(c) { return COLS[c]; }
+function instrumented(items, tok) {
+  var o = {};
+  o[Symbol.iterator] = function () {
+    var i = 0;
+    return { next: function () { YI(tok); return i < items.length ? {value: items[i++], done: false} : {value: undefined, done: true}; } };
+  };
+  return o;
+}
+function rbuilt(c, isSet, n, cnt) { return R(c, rlist(isSet ? 1 : 0, [...n]) + "/" + n.size + " adder-calls:" + cnt); }
+function op_install(c, isSet, n) { COLS[c] = n; return rbuilt(c, isSet, n, -1); }
+function op_rebuild(c, isSet, src, form, adder, pairObj, tok /*, key1, value1, key2, value2, ... */) {
+  var items = [], direct = null, i;
+  if (src >= 0) {
+    var s = COLS[src];
+    items = isSet ? (KINDS[src] === 1 ? [...s] : [...s.keys()]) : [...s];
+    if (arguments.length <= 7) direct = isSet ? (KINDS[src] === 1 ? (pairObj ? s.values() : s) : s.keys()) : (pairObj ? s.entries() : s);
+  }
+  for (i = 7; i + 1 < arguments.length; i += 2) {
+    var k = KEYS[arguments[i]], v = arguments[i + 1];
+    items.push(isSet ? k : (pairObj ? {0: k, 1: v, length: 2} : [k, v]));
+  }
+  var it;
+  switch (form) {
+  case 0: it = items; break;
+  case 1: it = direct !== null ? direct : items[Symbol.iterator](); break;
+  case 2: it = (function* () { for (var j = 0; j < items.length; j++) yield items[j]; })(); break;
+  case 3: it = instrumented(items, tok); break;
+  default: it = items[Symbol.iterator]();
+  }
+  var C = isSet ? Set : Map, P = C.prototype, name = isSet ? "add" : "set", n, cnt = -1;
+  if (adder === 1) {
+    var orig = P[name];
+    cnt = 0;
+    P[name] = function () { if (COLS.indexOf(this) < 0) cnt++; return orig.apply(this, arguments); };
+    try { n = new C(it); } finally { P[name] = orig; }
+  } else if (adder === 2) {
+    XCNT = 0;
+    n = isSet ? new XSet(it) : new XMap(it);
+    cnt = XCNT;
+  } else n = new C(it);
+  COLS[c] = n;
+  return rbuilt(c, isSet, n, form === 3 ? "-" : cnt);
 }
 // ---- symbol-property table of an ordinary object (KINDS[c] === 2) ----
 function sidx(k) { for (var i = 0; i < NSYM; i++) if (PKEYS[i] === k) return i; return -1; }
@@ -196,6 +244,7 @@ function op_copy(c, isSet, which) {
 
 var msFnNames = []string{"mkCol", "setScan", "ren", "op_set", "op_add", "op_get", "op_has", "op_delete", "op_clear", "op_size", "op_open", "op_next",
 	"op_forEach", "op_gopen", "op_gnext", "op_greturn", "op_spread", "op_copy",
+	"getCol", "op_install", "op_rebuild",
 	"sy_set", "sy_get", "sy_has", "sy_delete", "sy_clear", "sy_snap", "sy_copy", "sy_forin"}
 
 var (
@@ -272,12 +321,13 @@ const (
 	mopExport
 	mopGoForOf
 	mopGenReturn
+	mopRebuild
 	nMops
 )
 
-var mopNames = [...]string{"set/add", "get", "has", "delete", "size", "clear", "open-iterator", "advance-iterator", "forEach", "open-generator", "spread", "copy-construct", "go-Export", "go-ForOf", "generator-return"}
-var mopWeights = [...]int{22, 4, 4, 13, 2, 3, 8, 24, 7, 6, 2, 2, 3, 3, 1}
-var mopLetters = [...]byte{'s', 'g', 'h', 'd', 'z', 'c', 'o', 'a', 'f', 'G', 'p', 'y', 'x', 'F', 'r'}
+var mopNames = [...]string{"set/add", "get", "has", "delete", "size", "clear", "open-iterator", "advance-iterator", "forEach", "open-generator", "spread", "copy-construct", "go-Export", "go-ForOf", "generator-return", "construct-from-iterable"}
+var mopWeights = [...]int{22, 4, 4, 13, 2, 3, 8, 24, 7, 6, 2, 2, 3, 3, 1, 4}
+var mopLetters = [...]byte{'s', 'g', 'h', 'd', 'z', 'c', 'o', 'a', 'f', 'G', 'p', 'y', 'x', 'F', 'r', 'R'}
 
 const (
 	msPoolSize  = 12
@@ -320,9 +370,10 @@ const (
 	frForEach = iota
 	frGen
 	frGoForOf
+	frBuild // the iterable handed to a Map/Set constructor is being consumed
 )
 
-var frameNames = [...]string{"forEach", "generator", "goForOf"}
+var frameNames = [...]string{"forEach", "generator", "goForOf", "constructor-iterable"}
 
 type msFrame struct {
 	tok, kind, client, depth int
@@ -352,6 +403,7 @@ type msRun struct {
 	pool    [msPoolSize]int
 	spool   [msPoolSize]int // symbol-table runs: indices into PKEYS
 	psyms   []*goja.Symbol  // PKEYS[0..NSYM) as Go values
+	keysObj *goja.Object    // KEYS
 	cols    []*msColl
 	colObjs []*goja.Object
 	clients []*msClient
@@ -495,6 +547,16 @@ func (r *msRun) advance(cur *msCursor, owner int, what int) (int, bool) {
 	}
 	if curDeleted {
 		r.res.Count("iterator-advanced-from-deleted-current-entry", 1)
+		if e := coll.entries[prev]; e.era > cur.era0 {
+			for i := prev - 1; i >= 0 && coll.entries[i].era == e.era; i-- {
+				if coll.entries[i].live {
+					// the iterator survived a clear(), moved on into the refilled entries beyond the first one, and the
+					// entry it stands on was deleted while an earlier refilled entry survives
+					r.res.Count("iterator-survived-clear-then-advanced-from-deleted-current-entry", 1)
+					break
+				}
+			}
+		}
 		if prev > 0 && !coll.entries[prev-1].live {
 			r.res.Count("iterator-advanced-from-deleted-current-entry-with-deleted-predecessor", 1)
 		}
@@ -580,6 +642,8 @@ func (r *msRun) yieldPoint(fr *msFrame) bool {
 			r.res.Count("nested-steps-inside-generator-body", 1)
 		case frGoForOf:
 			r.res.Count("nested-steps-inside-go-ForOf", 1)
+		case frBuild:
+			r.res.Count("nested-steps-inside-constructor-iterable", 1)
 		}
 		r.execStep(cl, fr.depth+1)
 	}
@@ -616,6 +680,33 @@ func (r *msRun) nativeY(call goja.FunctionCall) goja.Value {
 		if r.S.Draw(2) == 0 {
 			panic(r.rt.ToValue(fmt.Sprintf("injected-%d", fr.tok)))
 		}
+		panic(r.rt.NewTypeError("injected-%d", fr.tok))
+	}
+	if r.failed {
+		panic(r.rt.ToValue("mapsim-abort"))
+	}
+	return goja.Undefined()
+}
+
+// nativeYI is called by the instrumented iterator a collection is being constructed from, before it produces each
+// element: a scheduling point in the middle of the construction.
+func (r *msRun) nativeYI(call goja.FunctionCall) goja.Value {
+	tok := int(call.Argument(0).ToInteger())
+	fr := r.top(tok)
+	if fr == nil || fr.kind != frBuild {
+		li := r.line(len(r.frames), fmt.Sprintf("iterator step with token %d outside its construction", tok))
+		r.hist[li].got, r.hist[li].exp, r.hist[li].open, r.hist[li].bad = "next() called", "<no call>", false, true
+		r.fail("map-result-mismatch", "stray-iterator-step", "the iterable handed to a constructor was stepped outside the construction step")
+		panic(r.rt.ToValue("mapsim-abort"))
+	}
+	fr.visits++
+	if fr.visits > msMaxVisits {
+		r.fail("map-result-mismatch", "constructor", "the constructor keeps stepping its iterable after it reported done")
+	}
+	if r.failed {
+		panic(r.rt.ToValue("mapsim-abort"))
+	}
+	if r.yieldPoint(fr) {
 		panic(r.rt.NewTypeError("injected-%d", fr.tok))
 	}
 	if r.failed {
@@ -992,7 +1083,10 @@ func (r *msRun) execStep(cl *msClient, depth int) {
 			idx, ok := r.advance(it.cur, cl.id, -1)
 			exp := "d"
 			if ok {
-				exp = r.renderEntry(coll, idx, it.rkind)
+				exp = r.renderEntry(it.cur.coll, idx, it.rkind)
+			}
+			if it.cur.coll != coll {
+				r.res.Count("iterator-advanced-on-replaced-collection", 1)
 			}
 			r.finish(li, got, withSize(exp, coll), "iterator-visit-mismatch", ctx)
 			return
@@ -1006,6 +1100,10 @@ func (r *msRun) execStep(cl *msClient, depth int) {
 		fr := r.push(frGen, cl.id, depth, it.cur, it.rkind, "generator["+genKindNames[it.kind]+"]")
 		got, err := r.call("op_gnext", cv, r.iv(it.slot), r.iv(fr.tok))
 		r.pop()
+		coll = r.cols[c] // a nested step may have re-created the collection in the slot
+		if it.cur.coll != coll {
+			r.res.Count("iterator-advanced-on-replaced-collection", 1)
+		}
 		if r.failed && r.hist[li].open {
 			r.hist[li].got, r.hist[li].open = "(abandoned)", false
 			return
@@ -1026,7 +1124,7 @@ func (r *msRun) execStep(cl *msClient, depth int) {
 			exp = "d"
 			if !it.dead {
 				if idx, ok := r.advance(it.cur, cl.id, frGen); ok {
-					exp = "d   <the generator ended, the reference iteration still has " + r.renderEntry(coll, idx, it.rkind) + ">"
+					exp = "d   <the generator ended, the reference iteration still has " + r.renderEntry(it.cur.coll, idx, it.rkind) + ">"
 				}
 			}
 			it.dead = true
@@ -1099,12 +1197,176 @@ func (r *msRun) execStep(cl *msClient, depth int) {
 		}
 		got := ""
 		if err == nil {
-			got = withSize("ok", coll) // ForOf returns nothing; the size is checked by the probe below
+			got = withSize("ok", r.cols[c]) // ForOf returns nothing; the size is checked by the probe below
 		}
 		r.endIteration(li, fr, got, err, c, depth, ctx, "fault.goforof-throw", unexpected)
 		if !r.failed && err == nil {
 			r.sizeProbe(c, depth)
 		}
+
+	case mopRebuild:
+		// The collection in the slot is re-created through its constructor from an iterable: AddEntriesFromIterable /
+		// the Set constructor call the adder once per element, i.e. Map.prototype.set / Set.prototype.add semantics
+		// (-0 becomes +0, an equal key keeps its first position) whichever shortcut the engine takes. Iterators opened on
+		// the old collection stay on the old collection.
+		mode, form, adder, pairObj := st.sel%4, (st.sel/4)%6, (st.sel/24)%3, (st.sel/72)%2
+		src := -1
+		switch mode {
+		case 2:
+			src = c
+		case 3:
+			src = c
+			if o := 1 - c; len(r.cols) == 2 && !r.cols[o].isSym && (coll.isSet || !r.cols[o].isSet) {
+				src = o
+			}
+		}
+		nExtra := 1 + (st.sel+st.key)%5
+		if src >= 0 {
+			nExtra = (st.sel + st.key) % 3
+			if form == 5 {
+				form = 1
+			}
+		}
+		type elem struct{ class, uni, val int }
+		var elems []elem
+		if src >= 0 {
+			sc := r.cols[src]
+			for _, idx := range sc.liveList() {
+				e := sc.entries[idx]
+				elems = append(elems, elem{e.class, e.uni, e.val})
+			}
+			if src != c {
+				r.res.Count("population-from-other-collection", 1)
+			} else {
+				r.res.Count("population-structured-copy-of-itself", 1)
+			}
+		}
+		var extraArgs []goja.Value
+		var desc []string
+		stride := 1 + (st.sel/7)%5
+		sawNegZero, sawDup := false, false
+		for i := 0; i < nExtra; i++ {
+			eu := r.pool[(st.key+i*stride)%msPoolSize]
+			val := 0
+			if !coll.isSet {
+				r.writes++
+				val = 1000 + r.writes
+			}
+			for _, e := range elems {
+				if e.class == u.classOf[eu] {
+					sawDup = true
+				}
+			}
+			elems = append(elems, elem{u.classOf[eu], eu, val})
+			extraArgs = append(extraArgs, r.iv(eu), r.iv(val))
+			if msNegZeroExprs[u.exprs[eu]] {
+				sawNegZero = true
+			}
+			if coll.isSet {
+				desc = append(desc, u.keyName(eu))
+			} else {
+				desc = append(desc, fmt.Sprintf("[%s, %d]", u.keyName(eu), val))
+			}
+		}
+		nc := newMsColl(coll.isSet, len(u.defs))
+		nc.touched = coll.touched
+		for _, e := range elems {
+			nc.set(e.class, e.uni, e.val, cl.id)
+		}
+		formName := [...]string{"array", "collection / its iterator", "generator", "instrumented iterator", "array iterator object", "Go: rt.New(ctor, rt.NewArray(...))"}[form]
+		adderName := [...]string{"unmodified adder", "patched prototype adder", "subclass with own adder"}[adder]
+		if form == 5 {
+			adderName = "unmodified adder"
+		}
+		srcName := ""
+		if src >= 0 {
+			srcName = fmt.Sprintf("...col%d, ", src)
+		}
+		li := r.line(depth, fmt.Sprintf("%s COLS[%d] = new %s(%s%s)   [%s; %s; pairs as %s]", hdr, c, ct, srcName, strings.Join(desc, ", "), formName, adderName, [...]string{"arrays", "array-like objects / via entries()/values()"}[pairObj]))
+		r.res.Count("population-through-constructor", 1)
+		live := false
+		for _, ci := range cursors {
+			if !ci.done {
+				live = true
+			}
+		}
+		var got string
+		var err error
+		fr := r.push(frBuild, cl.id, depth, newMsCursor(nc), 0, "constructor-iterable")
+		if form == 5 {
+			var items []interface{}
+			for i := 0; i+1 < len(extraArgs); i += 2 {
+				k := r.keysObj.Get(fmt.Sprint(extraArgs[i].ToInteger()))
+				if coll.isSet {
+					items = append(items, k)
+				} else {
+					items = append(items, r.rt.NewArray(k, extraArgs[i+1]))
+				}
+			}
+			name := "Map"
+			if coll.isSet {
+				name = "Set"
+			}
+			var obj *goja.Object
+			if obj, err = r.rt.New(r.rt.Get(name), r.rt.NewArray(items...)); err == nil {
+				got, err = r.call("op_install", cv, r.rt.ToValue(coll.isSet), obj)
+			}
+		} else {
+			args := append([]goja.Value{cv, r.rt.ToValue(coll.isSet), r.iv(src), r.iv(form), r.iv(adder), r.iv(pairObj), r.iv(fr.tok)}, extraArgs...)
+			got, err = r.call("op_rebuild", args...)
+		}
+		r.pop()
+		if r.failed && r.hist[li].open {
+			r.hist[li].got, r.hist[li].open = "(abandoned)", false
+			return
+		}
+		if err != nil {
+			if !fr.faulted {
+				unexpected(li, err)
+				return
+			}
+			// the iterable threw: no collection was created, the slot keeps the old one
+			r.res.Count("fault.iterable-throw", 1)
+			r.hist[li].got, r.hist[li].exp, r.hist[li].open = errText(err), "throw (injected)", false
+			r.sizeProbe(c, depth)
+			return
+		}
+		switch {
+		case adder == 1 && form != 5:
+			r.res.Count("population-patched-adder", 1)
+		case adder == 2 && form != 5:
+			r.res.Count("population-subclass-adder", 1)
+		case form == 0 || form == 5:
+			r.res.Count("population-fast-path-array-unmodified-adder", 1)
+		default:
+			r.res.Count("population-generic-iterator-unmodified-adder", 1)
+		}
+		if sawNegZero {
+			r.res.Count("population-with-negative-zero-element", 1)
+		}
+		if sawDup {
+			r.res.Count("population-with-equal-keys-in-iterable", 1)
+		}
+		if live {
+			r.res.Count("population-while-live-iterator-on-old-collection", 1)
+		}
+		r.cols[c] = nc
+		v, gerr := r.fn["getCol"](goja.Undefined(), cv)
+		if gerr != nil {
+			panic("mapsim: getCol failed: " + gerr.Error())
+		}
+		r.colObjs[c] = v.(*goja.Object)
+		cnt := "-1"
+		if form == 3 {
+			cnt = "-"
+		} else if adder != 0 && form != 5 {
+			cnt = fmt.Sprint(len(elems))
+		}
+		rk := 0
+		if nc.isSet {
+			rk = 1
+		}
+		r.finish(li, got, withSize(fmt.Sprintf("%s/%d adder-calls:%s", r.renderLive(nc, rk), nc.live, cnt), nc), "map-result-mismatch", "construct "+ct)
 
 	case mopSpread:
 		which := st.sel % 4
@@ -1227,7 +1489,7 @@ func (r *msRun) execSym(cl *msClient, st msStep, depth int) {
 		if st.sel&1 == 1 {
 			op = mopGenOpen
 		}
-	case mopGenReturn:
+	case mopGenReturn, mopRebuild:
 		op = mopSize
 	}
 	if key < nsym {
@@ -1606,7 +1868,7 @@ func (r *msRun) endIteration(li int, fr *msFrame, got string, err error, c, dept
 	}
 	exp := "ok"
 	if idx, ok := r.advance(fr.cur, fr.client, fr.kind); ok {
-		exp = "ok   <the iteration ended, the reference iteration still has " + r.renderEntry(coll, idx, fr.rkind) + ">"
+		exp = "ok   <the iteration ended, the reference iteration still has " + r.renderEntry(fr.cur.coll, idx, fr.rkind) + ">"
 	}
 	r.finish(li, got, withSize(exp, coll), "iterator-visit-mismatch", ctx)
 }
@@ -1738,9 +2000,12 @@ func (e *mapsim) Run(t *core.Tape, want bool) *core.Result {
 					break
 				}
 			}
-			st := msStep{op: op, col: W.Draw(ncols), key: W.Draw(msPoolSize), sel: W.Draw(40)}
+			st := msStep{op: op, col: W.Draw(ncols), key: W.Draw(msPoolSize), sel: W.Draw(240)}
 			if j < 2 && d%4 != 3 {
 				st.op = mopSet // clients start by filling
+				if d%16 == 1 {
+					st.op = mopRebuild // ... some through the constructor
+				}
 			}
 			cl.steps = append(cl.steps, st)
 		}
@@ -1752,6 +2017,7 @@ func (e *mapsim) Run(t *core.Tape, want bool) *core.Result {
 	r.rt = rt
 	msSetGlobals(rt)
 	rt.Set("Y", r.nativeY)
+	rt.Set("YI", r.nativeYI)
 	if _, err := rt.RunProgram(msProg); err != nil {
 		panic("mapsim: setup script failed: " + err.Error())
 	}
@@ -1763,6 +2029,7 @@ func (e *mapsim) Run(t *core.Tape, want bool) *core.Result {
 		}
 		r.fn[n] = f
 	}
+	r.keysObj = rt.Get("KEYS").(*goja.Object)
 	var scan []goja.Value
 	for _, ci := range chosen {
 		scan = append(scan, r.iv(u.repOf[ci]))
